@@ -375,10 +375,13 @@ def run(cx, rep):
     rep.ob("C01.2", "class", len(rx) == 1, "expected one runtime class holding a RegExp", mod.rel)
     for c in rx:
         anchored_ctor = False
-        for fname, e in c.ctor_assignments().items():
-            t = tsast.s(e)
-            if t.startswith("new RegExp(") and ("`^(?:" in t and ")$`" in t or '"^(?:"' in t and '")$"' in t):
-                anchored_ctor = True
+        # the constructor builds the anchored expression itself or through a local helper (`anchorToWholeString(regex)`)
+        ctor_nodes = list(tsast.walk_inl(mod, c.name, c.ctor)) if c.ctor is not None else []
+        for x_ in ctor_nodes:
+            if x_["type"] == "NewExpression" and tsast.s(x_["callee"]) == "RegExp":
+                t = tsast.s(x_)
+                if "`^(?:" in t and ")$`" in t or '"^(?:"' in t and '")$"' in t:
+                    anchored_ctor = True
         v = c.methods.get("validate")
         full = False
         if v:
@@ -409,11 +412,19 @@ def run(cx, rep):
         if (f_.inputs or []) == ["&str"] and (f_.output or "").endswith("String") and any(
                 (n["k"] == "MethodCall" and n["method"] == "replace") or (n["k"] == "Lit" and n.get("lit") == "char" and n.get("v") == "\\")
                 for n in walk(F.hir[g]["body"])):
-            er.append(g)
+            # .. of REGULAR EXPRESSION syntax (the function that turns chunk text back into template source also
+            # rewrites characters): it mentions several regex metacharacters, directly or in a constant table
+            lits_g = {x.get("v") for x in walk(F.hir[g]["body"]) if x["k"] == "Lit"} | {x.get("lit") for x in walk(F.hir[g]["body"]) if x["k"].startswith("P.") and x.get("lit") is not None}
+            for x in walk(F.hir[g]["body"]):
+                if x["k"] == "Path" and x.get("res") == "def" and (x.get("defkind") or "").startswith("Const") and x.get("def") in F.hir:
+                    lits_g |= {y.get("v") for y in walk(F.hir[x["def"]]["body"]) if y["k"] == "Lit"}
+            if len({c for c in "()[]{}.*+?|^$" if c in lits_g}) >= 3:
+                er.append(g)
     if len(er) != 1:
         rep.anchor_missing("C01.3", "the regex-escaping function (&str -> String using replace) in ast/runtype.rs; found %d" % len(er))
     else:
         t = F.hir[er[0]]
+        pair_order = None
         chain = []     # (node, char, replacement) in pre-order: the outermost call (last applied) comes first
         lt_chain = []  # the same for line terminators (rewritten as escape SEQUENCES, judged separately below)
         table = None   # or: the characters of a table that is folded / looped over, in application order
@@ -427,6 +438,23 @@ def run(cx, rep):
                         lt_chain.append((n, a0.get("v"), rp))
                     else:
                         chain.append((n, a0.get("v"), rp))
+                    continue
+                # pair-table form: `acc.replace(*from, to)` for each (from, to) of a constant table of pairs - the
+                # same thing as the chain, in table order
+                pair_tabs = []
+                for x in walk(t["body"]):
+                    arr = None
+                    if x["k"] == "Path" and x.get("res") == "def" and (x.get("defkind") or "").startswith("Const") and x.get("def") in F.hir:
+                        arr = next((y for y in walk(F.hir[x["def"]]["body"]) if y["k"] == "Array"), None)
+                    elif x["k"] == "Array":
+                        arr = x
+                    if arr is not None and arr.get("es") and all(e["k"] == "Tup" and len(e.get("es", [])) == 2 and all(z["k"] == "Lit" for z in e["es"]) for e in arr["es"]):
+                        pair_tabs.append(arr)
+                if len(pair_tabs) == 1 and n["args"][1]["k"] != "Lit":
+                    for e in reversed(pair_tabs[0]["es"]):          # the last entry is applied last = outermost
+                        ch_, rp_ = e["es"][0].get("v"), e["es"][1].get("v")
+                        (lt_chain if ch_ in LINE_TERMINATORS else chain).append((e, ch_, rp_))
+                    pair_order = [e["es"][0].get("v") for e in pair_tabs[0]["es"]]
                     continue
                 # table-driven form: `acc.replace(*c, &format!("\\{}", c))` for each c of a constant character table
                 ev = set(locals_in(a0))
@@ -494,8 +522,11 @@ def run(cx, rep):
             rep.ob("C01.3", "replacement/%s" % LINE_TERMINATORS[ch].strip("\\"), rp == LINE_TERMINATORS[ch], "escape of %r is %r, expected %r" % (ch, rp, LINE_TERMINATORS[ch]), "%s:%s" % (F.fns[er[0]].file, n["line"]))
             # the backslash this replacement introduces must not be doubled afterwards: the text it is applied to
             # (its receiver) already went through the escaping of the syntax characters
-            inner = [x for x in walk(n["recv"])] if n.get("recv") is not None else []
-            later = [c_ for c_ in chain if not any(x is c_[0] for x in inner)]
+            if pair_order is not None:
+                later = [c_ for c_ in chain if pair_order.index(c_[1]) > pair_order.index(ch)]
+            else:
+                inner = [x for x in walk(n["recv"])] if n.get("recv") is not None else []
+                later = [c_ for c_ in chain if not any(x is c_[0] for x in inner)]
             rep.ob("C01.3", "after-backslash/%s" % LINE_TERMINATORS[ch].strip("\\"), not later,
                    "the line terminator %r is rewritten as %s BEFORE the syntax characters are escaped (%s comes later): the backslash of the escape sequence is doubled and the expression demands a literal backslash" % (ch, LINE_TERMINATORS[ch], ", ".join(repr(c_[1]) for c_ in later)),
                    "%s:%s" % (F.fns[er[0]].file, n["line"]))
@@ -509,6 +540,10 @@ def run(cx, rep):
     # ---------------------------------------------------------------- C01.15
     rep.rule("C01.15", "a key validator of an index signature is offered the numeric reading of a property name")
     ts_common.numeric_key_rule(ts_common.Family(cx), ts_common.Family(cx).mod, rep, "C01.15")
+    # ---------------------------------------------------------------- C01.19 (= C08.3 keeps-optionality)
+    rep.rule("C01.19", "two types that differ in the optionality of a member never share a hoisted validator")
+    from rules.c08 import hoist_key_optionality_rule
+    hoist_key_optionality_rule(cx, rep, "C01.19")
     # ---------------------------------------------------------------- C01.18 (= C07.11)
     rep.rule("C01.18", "the rest element of a list answers for every index from the prefix length on (boundary of the prefix walk)")
     prefix_boundary_rule(cx, rep, "C01.18")
@@ -611,10 +646,17 @@ def alternation_rule(cx, rep, rid):
             for a in m["arms"]:
                 if (a["pat"].get("def") or "") != "%s::%s" % (enum, rec_variant):
                     continue
-                if not any(x["k"] == "MethodCall" and x["method"] == "join" for x in walk(a["body"])):
+                # the arm itself, or the private helper(s) it hands the collection to
+                nodes_a = list(walk(a["body"]))
+                for x in list(nodes_a):
+                    if x["k"] in ("Call", "MethodCall"):
+                        tg = F._callee_gid(f.crate, (x.get("resolved") or x.get("callee") or ""))
+                        if tg in F.hir and tg != g and (F.fns[tg].file or "") == (f.file or "") and F.fns[tg].vis != "Public":
+                            nodes_a += list(walk(F.hir[tg]["body"]))
+                if not any(x["k"] == "MethodCall" and x["method"] == "join" for x in nodes_a):
                     continue
                 n += 1
-                drops = [x for x in walk(a["body"]) if x["k"] == "MethodCall" and x["method"] in DROPPING and not (x.get("callee") or "").startswith("std::option")]
+                drops = [x for x in nodes_a if x["k"] == "MethodCall" and x["method"] in DROPPING and not (x.get("callee") or "").startswith("std::option")]
                 rep.ob(rid, "%s/every-alternative" % g.rsplit("::", 2)[-2] + "::" + g.rsplit("::", 1)[-1], not drops,
                        "%s drops members of a union of template alternatives (%s) before joining them: a member whose text is empty (`${\"\" | \"b\"}`) or that the adaptor skips no longer matches, so values of the type are rejected" % (g, ", ".join(sorted({x["method"] for x in drops}))),
                        "%s:%s" % (f.file, (drops[0] if drops else a).get("line")), sample={"fn": g})
@@ -652,7 +694,7 @@ def dotall_rule(cx, rep, rid):
         params = c.ctor_params()
         if not any("RegExp" in (tsast.type_str(p[1]) if p[1] is not None else "") for p in params):
             continue
-        for x in tsast.walk(c.ctor):
+        for x in tsast.walk_inl(mod, cname, c.ctor):
             if x["type"] == "NewExpression" and tsast.s(x["callee"]) == "RegExp" and x.get("arguments"):
                 n += 1
                 flags = tsast.s(x["arguments"][1]["expression"]) if len(x["arguments"]) > 1 else ""
